@@ -36,6 +36,16 @@ bnp.change_encoding, .to_string() / .tolist() / str() / from_encoded_array):
               it first, the input holds a character that is foreign to E but a member of an alphabet used before.  A failure
               that a process in which only E was ever used shows too is reported under the plain encode signature.
   observers   all decode observers agree with the upper-cased text for the full alphabet in both cases.
+  layout      the same elements at the same indices lying differently in memory: 1-d / 2-d / 3-d arrays that are transposed
+              (x.T), filled column-major (reshape(.., order="F")), sliced with steps / reversed along rows or columns, reduced to a
+              row / column of such a view, overlapping windows (sliding_window_view), and chains of these (incl. a final reshape /
+              ravel / copy).  Decode side: an alphabet-encoded array put through the steps unread, then every decode observer
+              (enc.decode - same shape -, to_string, tolist, ravel, x[i], iteration, str, single elements, change_encoding to the
+              base encoding and back, re-targeting to a compatible alphabet) must give the upper-cased text in row-major order of the
+              INDICES.  Encode side: text as uint8 ndarray / base-encoded array put through the same steps and then encoded: accepted
+              exactly when every element the view selects is in the alphabet (a foreign byte at every position of the underlying
+              array, also where the view leaves it out), same shape, same letters.  Oracle: refmodels/ndlayout.py (index arithmetic
+              on lists).  Failures that a freshly built row-major array of the same elements shows too: ..:any-layout.
 
 Scope: see `bounds` in the result.  The oracle is rtc/refmodels/alphabets.py (spec alphabets + ASCII upper-casing);
 the library is never used to compute an expected value.
@@ -47,6 +57,7 @@ from .common import Collector
 from .refmodels.alphabets import (ALPHABETS, ALIASES, alphabet_bytes, is_letter_lower, valid, all_valid, expected_text,
                                   foreign_bytes, classify_foreign, apply_view, apply_view_flat, case_twins, wide_points,
                                   classify_wide)
+from .refmodels import ndlayout as nd
 
 ENC_NAMES = list(ALPHABETS)
 NUMERIC = {"Quality": 33, "NumDigit": 48, "CigarLen": 0}
@@ -719,6 +730,247 @@ def _view_str(steps):
     return out
 
 
+# ----------------------------------------------------------------------------------------------- contract: memory layouts
+# The same elements at the same indices, lying differently in memory: a transposed view (x.T), a column-major fill
+# (reshape(.., order="F")), strided / reversed row and column slices, rows or columns picked out of them, overlapping windows
+# (sliding_window_view), chains of these - for 1-d, 2-d and 3-d arrays.  Two sides:
+#   decode side  an alphabet-encoded array is built with the public API, the steps are applied (nothing is read), then EVERY decode
+#                observer must give the upper-cased text element for element: enc.decode(x) (same shape), x.to_string() / tolist() /
+#                ravel() (row-major order of the indices), x[i] and iteration (row for row), str(x), every single element,
+#                change_encoding to the base encoding and back, re-targeting to a compatible alphabet.
+#   encode side  text as a uint8 ndarray / base-encoded EncodedArray is put through the same steps and THEN handed to enc.encode /
+#                as_encoded_array: accepted exactly when every element the view selects is in the alphabet, same shape, same letters.
+# Oracle: refmodels/ndlayout.py (index arithmetic on plain lists).  A failure that a freshly built row-major array holding the same
+# elements shows too is reported as ..:any-layout (foreign bytes: under the plain encode signature), else as ..:only-<layout>.
+LAYOUT_TEXT_SOURCES = ("Base", "Bytes")
+LAYOUT_PARTNER = {"ACGTEncoding": "ACGTnEncoding", "ACTGEncoding": "ACTGnEncoding", "ACGTnEncoding": "ACGTEncoding",
+                  "ACUGEncoding": "ACGTEncoding", "DigitEncoding": "fresh:0123456789"}
+
+
+def layout_label(a):
+    """how the array handed over lies in memory, from its shape / strides attributes only (names the failure class)"""
+    shape, strides, item = tuple(a.shape), tuple(a.strides), a.itemsize
+    if nd.size_of(shape) == 0:
+        return "empty"
+    c, mul = [], item
+    for n in reversed(shape):
+        c.append(mul)
+        mul *= n
+    c.reverse()
+    if all(s_ == e for s_, e, n in zip(strides, c, shape) if n > 1):
+        return "row-major"
+    eff = [(abs(s_), n) for s_, n in zip(strides, shape) if n > 1]
+    if any(eff[i][0] < eff[i + 1][0] for i in range(len(eff) - 1)):
+        return "axes-permuted"
+    if sum(s_ * (n - 1) for s_, n in eff) + item < item * nd.size_of(shape):
+        return "overlapping"
+    return "strided"
+
+
+def _lib_steps(x, steps):
+    """the same steps on the real array (EncodedArray or ndarray); nothing of the result is read here"""
+    import numpy as np
+    for st in steps:
+        if st[0] == "T":
+            x = x.T
+        elif st[0] == "idx":
+            x = x[tuple(slice(u[1], u[2], u[3]) if u[0] == "s" else u[1] if u[0] == "i" else list(u[1]) for u in st[1])]
+        elif st[0] == "reshape":
+            x = x.reshape(tuple(st[1]))
+        elif st[0] == "ravel":
+            x = x.ravel()
+        elif st[0] == "copy":
+            x = x.copy()
+        elif st[0] == "window":
+            x = np.lib.stride_tricks.sliding_window_view(x, st[1])
+        else:
+            raise KeyError(st[0])
+    return x
+
+
+def build_layout_source(src, seq, shape, order, enc):
+    import numpy as np
+    import bionumpy as bnp
+    from bionumpy.encoded_array import EncodedArray, BaseEncoding
+    if src in LAYOUT_TEXT_SOURCES:
+        a = np.array(seq, dtype=np.uint8).reshape(tuple(shape), order=order)
+        return a if src == "Bytes" else EncodedArray(a, BaseEncoding)
+    return bnp.as_encoded_array(s_of(seq), enc).reshape(tuple(shape), order=order)
+
+
+def _flatten(v):
+    if isinstance(v, list):
+        return [e for u in v for e in _flatten(u)]
+    return [v]
+
+
+def _layout_how(got, exp):
+    if isinstance(exp, str):
+        return how_differs([got], [exp]) if isinstance(got, str) else "not-text"
+    if isinstance(exp, list):
+        return how_differs(got, exp)
+    return "shape" if got[0] != exp[0] else "letters"
+
+
+def layout_failures(x, name, arr, dst=None):
+    """every decode observer on x against the model array arr = (shape, upper-cased bytes): [(observer, how, message)]"""
+    import re
+    import bionumpy as bnp
+    from bionumpy.encoded_array import BaseEncoding
+    enc = get_enc(name)
+    shape, flat = arr
+    text = s_of(flat)
+    ndim, size = len(shape), len(flat)
+    block_texts = [s_of(b) for b in nd.blocks(arr)] if ndim >= 1 else None
+    keep = []               # the base-encoded copy change_encoding returned (when it raised that is reported once, there)
+    obs = [("decode", lambda: (lambda d: (tuple(d.raw().shape), _flatten(d.raw().tolist())))(enc.decode(x)), (tuple(shape), list(flat))),
+           ("to_string", lambda: x.to_string(), text),
+           ("tolist", lambda: x.tolist(), text),
+           ("ravel", lambda: x.ravel().to_string(), text),
+           ("change_encoding:base", lambda: keep.append(bnp.change_encoding(x, BaseEncoding)) or keep[0].to_string(), text),
+           ("change_encoding:roundtrip", lambda: bnp.change_encoding(keep[0], enc).to_string() if keep else text, text)]
+    if ndim >= 2:
+        obs.append(("rows", lambda: [x[i].to_string() for i in range(len(x))], block_texts))
+    if ndim >= 2 or (ndim == 1 and size <= 8):
+        obs.append(("iter", lambda: [r.to_string() for r in x], block_texts))
+    if size > 0 and (ndim == 0 or shape[0] <= 20):
+        if ndim <= 1:
+            obs.append(("str", lambda: str(x), text))
+        else:       # numpy prints the rows along the last axis as quoted strings, in row-major order of the leading indices
+            obs.append(("str", lambda: re.findall(r"'([^']*)'", str(x)), [s_of(r) for r in nd.last_axis_rows(arr)]))
+    if 0 < size <= 6 and ndim >= 1:
+        obs.append(("elements", lambda: "".join(x[idx].to_string() for idx in nd.indices(shape)), text))
+    out = []
+    for o, f, exp in obs:
+        try:
+            got = f()
+        except Exception as e:
+            out.append((o, "raises:" + type(e).__name__, "%s raised %s: %s" % (o, type(e).__name__, str(e)[:160])))
+            continue
+        if got != exp:
+            out.append((o, _layout_how(got, exp), "%s gives %r, expected %r" % (o, got, exp)))
+    if dst:
+        T = get_enc(dst)
+        for fn in ("as_encoded_array", "change_encoding"):
+            v = _retarget_verdict(fn, x, T, [list(flat)], [size], [text], True, name, dst)
+            if v is not None:
+                out.append(("retarget:" + fn, v[0], v[1]))
+    return out
+
+
+def _layout_encode(v, enc, via):
+    import bionumpy as bnp
+    return enc.encode(v) if via == "encode" else bnp.as_encoded_array(v, enc)
+
+
+def eval_layout(col, case):
+    """case: {"k":"layout","enc":name,"src":"enc"|"Base"|"Bytes","data":[bytes],"shape":[..],"order":"C"|"F","ops":[steps],
+              "via":"encode"|"as_encoded_array" (text sources), "dst": name | None (decode side: re-target as well)}"""
+    from bionumpy.encodings.exceptions import EncodingError
+    name, src = case["enc"], case.get("src", "enc")
+    enc, alphabet = get_enc(name), spec_alphabet(name)
+    seq, shape, order, ops = list(case["data"]), list(case["shape"]), case.get("order", "C"), case.get("ops", [])
+    via, dst = case.get("via", "encode"), case.get("dst")
+    sel = nd.apply(nd.build(seq, shape, order), ops)             # the elements the view selects, original case
+    arr = (sel[0], [ord(c) for c in expected_text(sel[1])])
+    size = len(sel[1])
+    is_text = src in LAYOUT_TEXT_SOURCES
+    descr = "%s %r as %s%s array%s" % (src if is_text else name, s_of(seq), "x".join(map(str, shape)),
+                                       " column-major" if order == "F" else "", _steps_str(ops))
+    v = _lib_steps(build_layout_source(src, seq, shape, order, enc), ops)
+    if src == "Bytes" and not type(v).__name__ == "ndarray":
+        return              # an ndarray indexed down to one element is a numpy scalar, no array: not an input of the contract
+    label = layout_label(v if src == "Bytes" else v.raw())
+    plain_case = dict(case, data=list(sel[1]), shape=list(sel[0]), order="C", ops=[])
+
+    def plain_source():
+        return build_layout_source(src, sel[1], sel[0], "C", enc)
+
+    if not is_text:
+        col.case(case, nontrivial=size > 0, contract="layout:decode-observers:" + label)
+        fails = layout_failures(v, name, arr, dst)
+        if not fails:
+            return
+        plain = {(o, h) for o, h, _ in _safe_list(lambda: layout_failures(plain_source(), name, arr, dst))}
+        for o, h, msg in fails:
+            if (o, h) in plain:
+                col.fail("layout:%s:%s:any-layout" % (o, h), plain_case, "%s: %s" % (descr, msg))
+            else:
+                col.fail("layout:%s:%s:only-%s" % (o, h, label), case,
+                         "%s (a freshly built row-major array of the same elements is handled correctly): %s" % (descr, msg))
+        return
+    ok_expected = all_valid(sel[1], alphabet)
+    col.case(case, nontrivial=size > 0, contract="layout:encode:%s:%s" % ("accepts+observers" if ok_expected else "rejects-foreign", label))
+    try:
+        x = _layout_encode(v, enc, via)
+    except Exception as e:
+        if ok_expected:
+            same = _raised(lambda: _layout_encode(plain_source(), enc, via)) == type(e).__name__
+            col.fail("layout:encode:rejects-alphabet-member:%s:%s:%s" % (via, type(e).__name__, "any-layout" if same else "only-" + label),
+                     plain_case if same else case, "%s: %s raised %s: %s" % (descr, via, type(e).__name__, str(e)[:200]))
+        else:
+            col.check(isinstance(e, EncodingError), "layout:encode:foreign:wrong-exception-type:%s:%s:%s" % (type(e).__name__, via, label),
+                      case, "%s: foreign input raised %s, not an encoding error: %s" % (descr, type(e).__name__, str(e)[:200]))
+        return
+    if not ok_expected:
+        fb = foreign_bytes(sel[1], alphabet)
+        rec = _Recorder()
+        eval_enc(rec, {"k": "enc", "enc": name, "path": "ndarray" if src == "Bytes" else "base", "data": list(sel[1])})
+        if rec.failures:
+            for sig, c, msg in rec.failures:     # not a matter of the layout: the plain class, the plain case
+                col.fail(sig, c, msg)
+        else:
+            col.fail("layout:encode:accepts-foreign:%s:only-%s" % (via, label), case,
+                     "%s: %s accepted the foreign bytes %r and reads back as %r (the same elements as a flat row-major array are refused)"
+                     % (descr, via, fb, _safe(lambda: x.to_string())))
+        return
+    if name == "StrandEncoding" and getattr(x, "ndim", None) == 1 and len(arr[0]) != 1:
+        arr = nd.reshape(arr, (size,))              # FlatAlphabetEncoding flattens by design (row-major order of the indices)
+    fails = layout_failures(x, name, arr)
+    if not fails:
+        return
+    plain = {(o, h) for o, h, _ in _safe_list(lambda: layout_failures(_layout_encode(plain_source(), enc, via), name, arr))}
+    for o, h, msg in fails:
+        if (o, h) in plain:
+            col.fail("layout:encode:%s:%s:any-layout" % (o, h), plain_case, "%s: after %s: %s" % (descr, via, msg))
+        else:
+            col.fail("layout:encode:%s:%s:only-%s" % (o, h, label), case,
+                     "%s: after %s (the same elements as a fresh row-major array are handled correctly): %s" % (descr, via, msg))
+
+
+def _safe_list(f):
+    try:
+        return f()
+    except Exception:
+        return []
+
+
+def _raised(f):
+    """name of the exception type f() raises, None when it returns"""
+    try:
+        f()
+    except Exception as e:
+        return type(e).__name__
+    return None
+
+
+def _steps_str(steps):
+    out = ""
+    for st in steps:
+        if st[0] == "T":
+            out += ".T"
+        elif st[0] == "idx":
+            out += "[%s]" % ", ".join(":".join("" if v is None else str(v) for v in u[1:4]) if u[0] == "s" else
+                                      str(u[1]) for u in st[1])
+        elif st[0] == "reshape":
+            out += ".reshape(%s)" % ", ".join(map(str, st[1]))
+        elif st[0] == "window":
+            out += " -> sliding_window_view(%d)" % st[1]
+        else:
+            out += ".%s()" % st[0]
+    return out
+
+
 # ----------------------------------------------------------------------------------------------- contract: numeric
 def eval_numeric(col, case):
     import numpy as np
@@ -992,7 +1244,7 @@ def _cut(t, lens):
 
 
 EVAL = {"enc": eval_enc, "enc_after": eval_enc_after, "wide_text": eval_wide_text, "retarget": eval_retarget, "pieces": eval_pieces, "retarget_view": eval_retarget_view, "retarget_other": eval_retarget_other, "numeric": eval_numeric,
-        "observers": eval_observers}
+        "observers": eval_observers, "layout": eval_layout}
 
 
 def evaluate(col, case):
@@ -1699,9 +1951,236 @@ def gen_numeric(tier):
         yield {"k": "numeric", "enc": name, "path": "ndarray", "rows": [[lo, 255, 200, lo]]}
 
 
+def layout_fill(n, ab, off, lower_mode):
+    """n letters cycling through the alphabet from `off`, shifted by one after every full cycle (so rows as wide as the alphabet
+    differ); lower_mode as in fill()"""
+    out = []
+    for k in range(n):
+        b = ab[(off + k + k // len(ab)) % len(ab)]
+        if 65 <= b <= 90 and (lower_mode == 2 or (lower_mode == 1 and k % 2 == 1)):
+            b += 32
+        out.append(b)
+    return out
+
+
+def _sl(a=None, b=None, c=None):
+    return ["s", a, b, c]
+
+
+def layout_views(shape, full):
+    """named chains of steps for an array of this shape (every axis >= 1 long): [(name, steps)]; the first LAYOUT_CORE[ndim] are the
+    core set"""
+    n = len(shape)
+    size = nd.size_of(shape)
+    if n == 1:
+        out = [("rev", [["idx", [_sl(None, None, -1)]]]), ("step2", [["idx", [_sl(None, None, 2)]]]),
+               ("rev-step2", [["idx", [_sl(None, None, -2)]]]), ("list", [["idx", [["l", [shape[0] - 1, 0, 0, shape[0] // 2]]]]])]
+        for k in range(1, shape[0] + 1):
+            out += [("window%d" % k, [["window", k]]), ("window%d>T" % k, [["window", k], ["T"]])]
+            if full:
+                out += [("window%d>step2" % k, [["window", k], ["idx", [_sl(None, None, 2)]]]),
+                        ("window%d>T>row0" % k, [["window", k], ["T"], ["idx", [["i", 0]]]]),
+                        ("window%d>col-last" % k, [["window", k], ["idx", [_sl(), ["i", -1]]]]),
+                        ("window%d>T>rev" % k, [["window", k], ["T"], ["idx", [_sl(None, None, -1)]]]),
+                        ("window%d>ravel" % k, [["window", k], ["ravel"]])]
+        return out
+    if n == 2:
+        r, c = shape
+        out = [
+            ("plain", []),
+            ("T", [["T"]]),
+            ("cols-step2", [["idx", [_sl(), _sl(None, None, 2)]]]),
+            ("T>rows1:", [["T"], ["idx", [_sl(1, None)]]]),
+            ("rows-rev", [["idx", [_sl(None, None, -1)]]]),
+            ("cols-rev", [["idx", [_sl(), _sl(None, None, -1)]]]),
+            ("T>cols-step2", [["T"], ["idx", [_sl(), _sl(None, None, 2)]]]),
+            ("T>rows-rev", [["T"], ["idx", [_sl(None, None, -1)]]]),
+            ("cols1:>T", [["idx", [_sl(), _sl(1, None)]], ["T"]]),
+            ("col0", [["idx", [_sl(), ["i", 0]]]]),
+            ("T>row-last", [["T"], ["idx", [["i", -1]]]]),
+            ("T>col0", [["T"], ["idx", [_sl(), ["i", 0]]]]),
+            ("T>rows-list", [["T"], ["idx", [["l", [c - 1, 0, 0]]]]]),
+            ("T>ravel", [["T"], ["ravel"]]),
+            ("T>reshape-back", [["T"], ["reshape", [r, c]]]),
+            ("T>copy", [["T"], ["copy"]]),
+            ("T>T", [["T"], ["T"]]),
+        ]
+        if full:
+            out += [
+                ("rows-step2", [["idx", [_sl(None, None, 2)]]]),
+                ("both-rev", [["idx", [_sl(None, None, -1), _sl(None, None, -1)]]]),
+                ("rows-list", [["idx", [["l", [r - 1, 0, 0]]]]]),
+                ("cols-list", [["idx", [_sl(), ["l", [0, c - 1, 0]]]]]),
+                ("T>cols-list", [["T"], ["idx", [_sl(), ["l", [r - 1, 0]]]]]),
+                ("T>cols1:", [["T"], ["idx", [_sl(), _sl(1, None)]]]),
+                ("T>both-step2", [["T"], ["idx", [_sl(None, None, 2), _sl(None, None, 2)]]]),
+                ("T>both-rev", [["T"], ["idx", [_sl(None, None, -1), _sl(None, None, -1)]]]),
+                ("rows1:>T>cols-rev", [["idx", [_sl(1, None)]], ["T"], ["idx", [_sl(), _sl(None, None, -1)]]]),
+                ("cols-rev>T", [["idx", [_sl(), _sl(None, None, -1)]], ["T"]]),
+                ("cols-step2>T", [["idx", [_sl(), _sl(None, None, 2)]], ["T"]]),
+                ("T>inner", [["T"], ["idx", [_sl(0, -1), _sl(1, None)]]]),
+                ("T>element", [["T"], ["idx", [["i", -1], ["i", 0]]]]),
+                ("T>reshape-flat", [["T"], ["reshape", [size]]]),
+                ("T>reshape-column", [["T"], ["reshape", [size, 1]]]),
+                ("cols-step2>ravel", [["idx", [_sl(), _sl(None, None, 2)]], ["ravel"]]),
+                ("ravel", [["ravel"]]),
+                ("copy", [["copy"]]),
+                ("T>copy>T", [["T"], ["copy"], ["T"]]),
+            ]
+        return out
+    a, b, c = shape
+    out = [
+        ("plain", []),
+        ("T", [["T"]]),
+        ("T>first", [["T"], ["idx", [["i", 0]]]]),
+        ("T>mid0", [["T"], ["idx", [_sl(), ["i", 0]]]]),
+        ("mid-last", [["idx", [_sl(), ["i", -1]]]]),
+        ("last0", [["idx", [_sl(), _sl(), ["i", 0]]]]),
+        ("T>ravel", [["T"], ["ravel"]]),
+        ("first>T", [["idx", [["i", -1]]], ["T"]]),
+    ]
+    if full:
+        out += [
+            ("T>rows-rev", [["T"], ["idx", [_sl(None, None, -1)]]]),
+            ("T>last-step2", [["T"], ["idx", [_sl(), _sl(), _sl(None, None, 2)]]]),
+            ("T>reshape2d", [["T"], ["reshape", [c * b, a]]]),
+            ("reshape2d>T", [["reshape", [a, b * c]], ["T"]]),
+            ("mid-rev", [["idx", [_sl(), _sl(None, None, -1)]]]),
+            ("T>last-last>T", [["T"], ["idx", [_sl(), _sl(), ["i", -1]]], ["T"]]),
+            ("T>copy", [["T"], ["copy"]]),
+            ("T>line", [["T"], ["idx", [["i", 0], ["i", -1]]]]),
+        ]
+    return out
+
+
+LAYOUT_CORE = {1: 4, 2: 4, 3: 3}
+LAYOUT_EMPTY_VIEWS = [[], [["T"]], [["idx", [_sl(None, None, -1)]]], [["T"], ["ravel"]]]
+
+
+def gen_layout(tier):
+    # ---- 2b. the same elements lying differently in memory (transposed / column-major / strided / windows), both sides
+    thorough = tier == "thorough"
+    shapes2 = [(r, c) for r in range(1, 5) for c in range(1, 5)] + ([(2, 7), (6, 2), (5, 5)] if thorough else [])
+    shapes3 = [(2, 3, 2), (2, 2, 3)] + ([(3, 2, 2), (1, 3, 2), (2, 1, 3), (3, 2, 1), (2, 3, 4), (2, 2, 2)] if thorough else [])
+    lens1 = (2, 3, 4, 5, 6, 7) if thorough else (3, 5)
+    for name in ENC_NAMES:
+        alphabet = ALPHABETS[name]
+        ab = alphabet_bytes(alphabet)
+        dst = LAYOUT_PARTNER.get(name)
+        mk = lambda **kw: dict({"k": "layout", "enc": name}, **kw)
+        # (i) decode side: alphabet-encoded arrays
+        for shape in shapes2 + shapes3 + [(n,) for n in lens1]:
+            size = nd.size_of(shape)
+            views = layout_views(shape, thorough)
+            for order in ("C", "F") if len(shape) > 1 else ("C",):
+                for off in ((0, 1) if thorough else (0,)):
+                    use = views if (order == "C" or (thorough and off == 0)) else views[:LAYOUT_CORE[len(shape)]]
+                    for vi, (_, ops) in enumerate(use):
+                        yield mk(src="enc", data=layout_fill(size, ab, off, 0), shape=list(shape), order=order, ops=ops,
+                                 dst=dst if thorough or vi < 2 * LAYOUT_CORE[len(shape)] else None)
+        for shape in ((0, 3), (3, 0), (0, 0), (0,), (2, 0, 2)):
+            for ops in LAYOUT_EMPTY_VIEWS:
+                yield mk(src="enc", data=[], shape=list(shape), order="C", ops=ops, dst=dst)
+        # (ii) encode side: text (uint8 ndarray / base-encoded array) in mixed case put through the steps, then encoded
+        tshapes = shapes2 + shapes3 + [(n,) for n in lens1] if thorough else [(2, 3), (3, 2), (2, 2), (1, 3), (4, 1), (3, 4), (2, 3, 2), (5,)]
+        for src, vias in (("Bytes", ("encode", "as_encoded_array")), ("Base", ("as_encoded_array", "encode"))):
+            for shape in tshapes:
+                size = nd.size_of(shape)
+                views = layout_views(shape, thorough)
+                for order in ("C", "F") if len(shape) > 1 else ("C",):
+                    use = views if order == "C" else views[:LAYOUT_CORE[len(shape)]]
+                    if not thorough and src == "Base":
+                        use = use[:2 * LAYOUT_CORE[len(shape)]]
+                    for vi, (_, ops) in enumerate(use):
+                        for via in vias if vi < LAYOUT_CORE[len(shape)] else vias[:1]:
+                            yield mk(src=src, via=via, data=layout_fill(size, ab, 1, 1), shape=list(shape), order=order, ops=ops)
+            # one foreign byte at every position of the underlying array; views that leave a column / row out must still accept
+            # the text when the foreign byte is not among the elements they select
+            fs = foreign_set(alphabet, "small")
+            fs = fs[:4] if thorough else fs[:1] + fs[-1:]
+            fnames = ("plain", "T", "cols1:>T", "T>rows1:", "cols-step2", "col0", "T>first", "mid-last") if thorough else ("plain", "T", "cols1:>T")
+            for shape in ((2, 3), (3, 2)) + (((2, 2, 2), (3, 3)) if thorough else ()):
+                size = nd.size_of(shape)
+                fviews = [v for v in layout_views(shape, thorough) if v[0] in fnames]
+                for order in ("C", "F"):
+                    for _, ops in fviews:
+                        if (not ops and order == "C") or (ops and order == "F" and not thorough):
+                            continue
+                        for pos in range(size):
+                            for f in fs:
+                                data = layout_fill(size, ab, 0, 1)
+                                data[pos] = f
+                                yield mk(src=src, via=vias[0], data=data, shape=list(shape), order=order, ops=ops)
+        # (iii) thorough: every content over two letters (first and last member) for the small matrices
+        if thorough:
+            for shape in ((2, 2), (2, 3), (3, 2)):
+                for content in itertools.product((ab[0], ab[-1]), repeat=nd.size_of(shape)):
+                    for ops in ([["T"]], [["T"], ["idx", [_sl(1, None)]]]):
+                        yield mk(src="enc", data=list(content), shape=list(shape), order="C", ops=ops, dst=None)
+                    yield mk(src="enc", data=list(content), shape=list(shape), order="F", ops=[], dst=None)
+                    yield mk(src="Bytes", via="encode", data=list(content), shape=list(shape), order="F", ops=[])
+
+
+def sampled_layout_cases(seed, n):
+    """above the bounds: larger arrays (1..3 axes of 1..6), random content, random chains of 1..4 steps"""
+    import random
+    rng = random.Random(seed * 49979687 + 60006)
+    made = 0
+    while made < n:
+        name = rng.choice(ENC_NAMES)
+        ab = alphabet_bytes(ALPHABETS[name])
+        shape = tuple(rng.randint(1, 6) for _ in range(rng.choice((1, 2, 2, 2, 3))))
+        order = rng.choice(("C", "F"))
+        src = rng.choice(("enc", "enc", "Bytes", "Base"))
+        both = ab + [b + 32 for b in ab if 65 <= b <= 90]
+        data = [rng.choice(ab if src == "enc" else both) for _ in range(nd.size_of(shape))]
+        if src != "enc" and rng.random() < 0.25:
+            data[rng.randrange(len(data))] = rng.choice(foreign_set(ALPHABETS[name], "medium"))
+        ops, cur = [], shape
+        for _ in range(rng.randint(1, 4)):
+            kind = rng.choice(("T", "T", "idx", "idx", "idx", "window", "reshape", "ravel", "copy"))
+            if kind == "T":
+                st = ["T"]
+            elif kind == "idx" and len(cur) >= 1:
+                subs = []
+                fancy = rng.random() < 0.2
+                for ax, m in enumerate(cur[:rng.randint(1, len(cur))]):
+                    u = rng.random()
+                    if fancy and ax == 0:
+                        subs.append(["l", [rng.randrange(-m, m) for _ in range(rng.randint(1, 4))]])
+                    elif u < 0.2 and not fancy:
+                        subs.append(["i", rng.randrange(-m, m)])
+                    else:
+                        subs.append(_sl(rng.choice((None, 0, 1, -1)), rng.choice((None, None, m, -1)), rng.choice((None, 1, 2, -1, -2))))
+                st = ["idx", subs]
+            elif kind == "window" and len(cur) == 1 and cur[0] >= 1:
+                st = ["window", rng.randint(1, cur[0])]
+            elif kind == "reshape" and nd.size_of(cur) > 0:
+                size = nd.size_of(cur)
+                d = rng.choice([k for k in range(1, size + 1) if size % k == 0])
+                st = ["reshape", [d, size // d]]
+            elif kind in ("ravel", "copy"):
+                st = [kind]
+            else:
+                continue
+            ops.append(st)
+            cur = nd.apply((cur, [0] * nd.size_of(cur)), [st])[0]
+            if nd.size_of(cur) == 0:
+                break
+        if not ops or len(cur) > 3 or (src == "Bytes" and len(cur) == 0):
+            continue
+        made += 1
+        case = {"k": "layout", "enc": name, "src": src, "data": data, "shape": list(shape), "order": order, "ops": ops}
+        if src == "enc":
+            case["dst"] = rng.choice((None, LAYOUT_PARTNER.get(name)))
+        else:
+            case["via"] = rng.choice(("encode", "as_encoded_array"))
+        yield case
+
+
 def gen_cases(tier, rng=None):
     """order: cheap and defect-prone parts first, so that a cut by the time budget loses the least"""
-    for g in (gen_bytes, gen_numeric, gen_wide, gen_history, gen_pieces, gen_retarget, gen_views, gen_strings, gen_lists):
+    for g in (gen_bytes, gen_numeric, gen_wide, gen_history, gen_layout, gen_pieces, gen_retarget, gen_views, gen_strings, gen_lists):
         yield from g(tier)
 
 
@@ -1779,9 +2258,12 @@ def run(tier="quick", seed=0):
                     "characters beyond 8 bits (member or lower-case twin + a multiple of 256 / 65536) through every input kind that "
                     "holds python str; the encode contract after a history of other alphabet encodings used in the same process "
                     "(every character of an alphabet used before that is foreign to the current one); "
+                    "memory layouts: every alphabet x 2-d shapes 1..4 x 1..4 (+ 3-d, 1-d) x row-/column-major fill x a family of "
+                    "transposing / strided / reversed / windowed views, decode side (all observers) and encode side (text views, "
+                    "one foreign byte at every position); "
                     "distinct = distinct (encoding, input kind, byte content[, view]); non-trivial = non-empty content "
                     "(views: and the source really was unflattened when handed over)",
-                    budget_s=(62 if tier == "quick" else 610))
+                    budget_s=(72 if tier == "quick" else 670))
     col.bounds = {
         "encodings": ENC_NAMES + ["DNAEncoding", "RNAENcoding", "fresh:acgtn (byte table only)"],
         "bytes": "0..255 at length 1 through %d input kinds" % (len(FLAT_PATHS) + len(RAGGED_PATHS)),
@@ -1830,6 +2312,35 @@ def run(tier="quick", seed=0):
             "oracle": "the call raises, or the result reads back as the texts of the pieces (spec alphabets), piece for piece",
         },
         "numeric": "every byte >= min_code for Quality(33), Digit(48), CigarLen(0)",
+        "layout": {
+            "encodings": ENC_NAMES,
+            "shapes": "2-d: every r x c with r, c in 1..4%s; 3-d: %s; 1-d: lengths %s (windows of every width); zero-size: (0,3) (3,0) "
+                      "(0,0) (0,) (2,0,2)" % ((" + (2,7) (6,2) (5,5)", "8 shapes up to (2,3,4)", "2..7") if tier == "thorough" else
+                                              ("", "(2,3,2) (2,2,3)", "3, 5")),
+            "fill": "row-major and column-major (reshape order='F'); letters cycling through the alphabet from offset %s, shifted by one "
+                    "per cycle%s" % (("0 and 1", "; every content over {first, last member} for 2x2, 2x3, 3x2 x {T, T[1:], column-major, "
+                                      "column-major bytes encoded}") if tier == "thorough" else ("0", "")),
+            "views": "2-d: %d chains (T, rows / columns reversed / step 2 / from 1, index lists, one row / column / element, T of slices, "
+                     "slices of T, T.T, then ravel / reshape / copy); 3-d: %d; 1-d: reversed, strided, index list, windows of every width "
+                     "k (+ T%s); column-major fills: %s"
+                     % (len(layout_views((2, 2), tier == "thorough")), len(layout_views((2, 2, 2), tier == "thorough")),
+                        ", strided, row, column, reversed, ravel of the windows" if tier == "thorough" else "",
+                        "all chains (offset 0), the core chains (offset 1)" if tier == "thorough" else "the core chains (plain, T, columns step 2, T[1:])"),
+            "decode side observers": "enc.decode (shape + elements), to_string, tolist, ravel, x[i] for every i, iteration, str (quoted rows), "
+                                     "every single element (size <= 6), change_encoding -> base -> back, as_encoded_array / change_encoding "
+                                     "to the partner alphabet %r%s" % (LAYOUT_PARTNER, "" if tier == "thorough" else " (first 8 chains)"),
+            "encode side": "sources uint8 ndarray ('Bytes') and base-encoded EncodedArray ('Base'), mixed case, through enc.encode and "
+                           "as_encoded_array (both for the core chains, one for the others%s), shapes %s; one foreign byte (%s) at every position "
+                           "of a 2x3 / 3x2%s array under %s" % (
+                               "" if tier == "thorough" else "; base-encoded: the first 8 chains",
+                               "as on the decode side" if tier == "thorough" else "(2,3) (3,2) (2,2) (1,3) (4,1) (3,4) (2,3,2) (5,)",
+                               "4 bytes" if tier == "thorough" else "2 bytes",
+                               " / 2x2x2 / 3x3" if tier == "thorough" else "",
+                               "8 chains x both fills" if tier == "thorough" else "column-major fill, T, [:, 1:].T"),
+            "oracle": "refmodels/ndlayout.py: t[i..k] = a[k..i], subscripts by position lists, row-major order of the indices; no numpy",
+            "classification": "layout of the array handed over, from its shape / strides: row-major, axes-permuted, strided, overlapping, "
+                              "empty; a failure that a freshly built row-major array of the same elements shows too -> any-layout",
+        },
         "beyond_8_bits": {
             "characters": "every member and lower-case twin of every alphabet + each of %s, plus the unrelated %s"
                           % ([hex(o) for o in WIDE_OFFSETS[tier]], [hex(c) for c in WIDE_UNRELATED]),
@@ -1859,7 +2370,9 @@ def run(tier="quick", seed=0):
                    "0..8, chains of 1..3 random indexing steps (seeded, time permitting); random lists of 2..7 encoded pieces "
                    "(1..3 encodings, random kinds / ways / targets / containers); random texts / lists of 2..31 characters with one "
                    "random character beyond 8 bits; random histories of 1..7 encodings (repeats, user-made alphabets of random "
-                   "letters) followed by text with a character of an alphabet used before",
+                   "letters) followed by text with a character of an alphabet used before; random layouts: arrays of 1..3 axes of "
+                   "length 1..6, random fill order and content, chains of 1..4 random steps (T, subscripts, windows, reshape, ravel, copy), "
+                   "decode and encode side",
     }
     for case in gen_cases(tier, col.rng):
         evaluate(col, case)
@@ -1880,6 +2393,10 @@ def run(tier="quick", seed=0):
                 if time.time() - col.t0 > col.budget_s:
                     break
                 evaluate(col, case)
+        for case in sampled_layout_cases(seed, 300 if tier == "quick" else 3000):
+            if time.time() - col.t0 > col.budget_s:
+                break
+            evaluate(col, case)
         for case in sampled_view_cases(seed, 200 if tier == "quick" else 10000):
             if time.time() - col.t0 > col.budget_s:
                 break
